@@ -477,9 +477,13 @@ def run(ctx):
         nsl = 16 if (level <= fault_depth and len(frontier) < 64) else (4 if len(frontier) < 64 else 1)
         units = [(ctx.tier, h, s, "all" if level <= fault_depth else "bulk", (i, nsl)) for h, s in frontier for i in range(nsl)]
         nxt = []
+        level_succ = []
         for st, succ in ctx.pmap(expand_task, units):
             total.merge(st)
-            for key, hist, snap in succ:
+            level_succ.extend(succ)
+        level_succ.sort(key=lambda t: (t[0], len(t[1]), repr(t[1])))      # deterministic representative per state
+        for _one in [0]:
+            for key, hist, snap in level_succ:
                 if key not in seen:
                     seen[key] = hist
                     if level < depth:
